@@ -1,4 +1,5 @@
 import EdVerif.Proofs.PointLayer
+import EdVerif.Proofs.Closing
 /-!
 C17 — `BytesMontgomery` is the RFC 7748 birational map (point-layer part).
 
@@ -10,19 +11,19 @@ For every valid point in any projective representation `BytesMontgomery` returns
 namespace EdVerif.Props
 open EdVerif.Impl EdVerif.Prims EdVerif.Proofs EdVerif.Spec
 
-theorem C17_partial (ff : FieldFacts) {P : P3} (hP : P.Valid) :
+theorem C17_partial {P : P3} (hP : P.Valid) :
     Point.bytesMontgomery P = LEbytes ((1 + P.toEd.y) * (1 - P.toEd.y)⁻¹).val 32 :=
-  Proofs.C17_partial ff hP
+  Proofs.C17_partial fieldFacts hP
 
-theorem C17_y_only (ff : FieldFacts) {P Q : P3} (hP : P.Valid) (hQ : Q.Valid)
+theorem C17_y_only {P Q : P3} (hP : P.Valid) (hQ : Q.Valid)
     (h : P.toEd.y = Q.toEd.y) : Point.bytesMontgomery P = Point.bytesMontgomery Q :=
-  Proofs.C17_y_only ff hP hQ h
+  Proofs.C17_y_only fieldFacts hP hQ h
 
-theorem C17_neg (ff : FieldFacts) {P : P3} (hP : P.Valid) :
-    Point.bytesMontgomery (Point.neg P) = Point.bytesMontgomery P := Proofs.C17_neg ff hP
+theorem C17_neg {P : P3} (hP : P.Valid) :
+    Point.bytesMontgomery (Point.neg P) = Point.bytesMontgomery P := Proofs.C17_neg fieldFacts hP
 
-theorem C17_identity (ff : FieldFacts) {P : P3} (hP : P.Valid) (h0 : P.toEd = 0) :
-    Point.bytesMontgomery P = LEbytes 0 32 := Proofs.C17_identity ff hP h0
+theorem C17_identity {P : P3} (hP : P.Valid) (h0 : P.toEd = 0) :
+    Point.bytesMontgomery P = LEbytes 0 32 := Proofs.C17_identity fieldFacts hP h0
 
 /-- non-vacuity -/
 example : ∃ P : P3, P.Valid ∧ P.toEd = 0 := Proofs.exists_valid
